@@ -32,7 +32,7 @@ RULE = ("Kernel and circuit are built from ONE description object in either orde
         "(thorough tier). sampled: Hypothesis-generated experiments = ordered list of 1..4 distinct counts from 0..6 (0 and 1 "
         "over-weighted) x distance 2..4 x computational data-qubit states x optional computational ancilla states x "
         "description from_chain / from_initial_state / from_connectivity(contiguous sub-chain of the Surface-17 "
-        "Repetition9Code, either direction) x refocusing on/off. sampled_large (thorough tier only): lists of 1..5 counts "
+        "Repetition9Code, either direction, optionally with an explicit qubit-to-channel map of distinct indices 0..16) x refocusing on/off. sampled_large (thorough tier only): lists of 1..5 counts "
         "from 0..8, distance 2..5. Non-trivial = >= 2 rounds entries including a 0- or 1-round block (where circuit and "
         "kernel special-case their layout); distinct = distinct canonical JSON of the generated experiment.")
 ASSUMPTIONS = [
@@ -72,8 +72,10 @@ def _build(case):
         names = S17_CHAIN[2 * case["offset"]: 2 * case["offset"] + 2 * d - 1]
         if case.get("reverse"):
             names = names[::-1]
+        involved = [QubitIDObj(n) for n in names]
+        index_map = None if case.get("index_map") is None else {q: i for q, i in zip(involved, case["index_map"])}
         desc = RepetitionCodeDescription.from_connectivity(
-            involved_qubit_ids=[QubitIDObj(n) for n in names], connectivity=Repetition9Code(), qubit_refocusing=case["refocus"])
+            involved_qubit_ids=involved, connectivity=Repetition9Code(), qubit_index_map=index_map, qubit_refocusing=case["refocus"])
     return desc, init
 
 
@@ -81,7 +83,7 @@ def _classes(case):
     r = case["rounds"]
     return [f"order={case.get('order', 'circuit_first')}", f"own_lists={bool(case.get('own_lists'))}",
             f"d={case['distance']}", f"desc={case['desc']}", f"has0={0 in r}", f"has1={1 in r}", f"len={len(r)}",
-            f"refocus={case['refocus']}", f"ancilla_states={case.get('ancilla_states') is not None}",
+            f"refocus={case['refocus']}", f"explicit_index_map={case.get('index_map') is not None}", f"ancilla_states={case.get('ancilla_states') is not None}",
             f"zero_first={r[0] == 0}", f"zero_last={r[-1] == 0}", f"max_count>=4={max(r) >= 4}",
             f"data_all_zero={set(case['data_states']) == {'0'}}"]
 
@@ -253,6 +255,9 @@ def _strat(max_count, max_len, max_d):
         if case["desc"] == "surface17":
             case["offset"] = draw(st.integers(0, 9 - d))
             case["reverse"] = draw(st.booleans())
+            # optional explicit channel numbering (device indices): distinct, not necessarily 0..n-1 or ordered
+            if draw(st.booleans()):
+                case["index_map"] = draw(st.lists(st.integers(0, 16), min_size=2 * d - 1, max_size=2 * d - 1, unique=True))
         return case
     return experiment()
 
